@@ -227,10 +227,11 @@ def colOf (desc : List (String × String)) (k : String) : Except String (Option 
   | some v => match str2num v with
     | .str s => match columnRef s with
       | some i => .ok (some i)
-      | none => .error (if (s.splitOn "column").length < 2 then "IndexError" else "ValueError")
-    | _ => .error "AttributeError"      -- a number has no .split
+      | none => .error (if (s.splitOn "column").length < 2 then "row:IndexError" else "row:ValueError")
+    | _ => .error "row:AttributeError"      -- a number has no .split
 
-/-- everything `update_from_grid` needs to know, or the exception class the code raises -/
+/-- everything `update_from_grid` needs to know, or the exception class the code raises
+    (`row:` = raised inside `update_from_grid`, i.e. only when the grid has at least one row) -/
 def layout (desc : List (String × String)) : Except String Layout := do
   let obs ← match lookup desc "y1name" with
     | some o => pure o
@@ -248,23 +249,23 @@ def layout (desc : List (String × String)) : Except String Layout := do
     let idx := ((k.drop 1).toString.splitOn "name").headD ""
     let nm := (lookup desc k).getD ""
     match lookup desc ("x" ++ idx ++ "value") with
-    | none => throw "AttributeError"
+    | none => throw "row:AttributeError"
     | some v => match str2num v with
       | .flt d => pure { name := nm, src := .glob d : Axis }
       | .int d => pure { name := nm, src := .glob d }
       | .str s => match columnRef s with
         | some i => pure { name := nm, src := .col i }
-        | none => throw "IndexError"
+        | none => throw "row:IndexError"
   let ycol ← match ← colOf desc "y1value" with
     | some i => pure i
-    | none => throw "AttributeError"
+    | none => throw "row:AttributeError"
   -- `if 'y1error' in self:` total error given, nothing else is looked at; otherwise the parts, and the
   -- asymmetric "minus" columns are only read when the corresponding "plus" key is present
   let etotal ← colOf desc "y1error"
   let need (k : String) : Except String (Option Int) := do
     match ← colOf desc k with
     | some i => pure (some i)
-    | none => throw "AttributeError"
+    | none => throw "row:AttributeError"
   let estat ← if etotal.isSome then pure none else colOf desc "y1errorstatistic"
   let estatP ← if etotal.isSome then pure none else colOf desc "y1errorstatisticplus"
   let estatM ← if etotal.isSome || estatP.isNone then pure none else need "y1errorstatisticminus"
